@@ -206,7 +206,16 @@ func step(sc *hScenario, st *hState, op hOp) *hFinding {
 		mv := st.mvals[op.Arg]
 		ref, segs, after, rerr := rm.EncodeRef(mv)
 		if rerr != nil {
-			panic("histx: scenario message outside the schema domain: " + rerr.Error())
+			// a message the schema refuses (a value too long for its prefix, an unregistered key): the library must
+			// refuse it too (C18/C12 check that); what it appended before failing is unconstrained, so the model
+			// re-synchronises with the real buffer and message object — and everything AFTER the failure is checked as usual
+			err := bind.Encode(st.msgs[op.Arg], st.buf)
+			if err == nil {
+				return &hFinding{Kind: "invalid-message-accepted", Role: "other", Detail: "schema error " + rerr.Error() + " but Encode succeeded"}
+			}
+			st.unread = append([]byte{}, st.buf.Bytes()...)
+			st.mvals[op.Arg] = bind.MustFrom(mv.Type, st.msgs[op.Arg])
+			return nil
 		}
 		before := append([]byte{}, st.unread...)
 		err := bind.Encode(st.msgs[op.Arg], st.buf)
